@@ -69,6 +69,26 @@ def generate(tier, rng):
             pairs.append((name, value))
         items.append(("add", pairs))
     cases = []
+    # one tx_response object REUSED through a history of operations (set_header_string / add_header / is_valid / copy /
+    # message): validity must be a function of the CURRENT header string alone, whatever was checked before
+    fragments = [b"X-A: 1\r\n", b"X-Long-Header-Name: some longer value here\r\n", b"\r\n", b"\n", b"X-B: 2\r\n\r\nInjected: 1\r\n",
+                 b"A: b\n\nC: d\r\n", b"", b"Set-Cookie: a=b\r\n", b"X: y", b"\r\nX: y\r\n"]
+    for hi in range(150 if tier == "quick" else 6000):
+        ops = []
+        for _ in range(rng.range(2, 6)):
+            k = rng.below(6)
+            if k <= 1:
+                ops.append(("H", b"".join(rng.choice(fragments) for _ in range(rng.range(0, 3)))))
+            elif k == 2:
+                ops.append(("A", rng.choice([b"X-N", b"Y"]), rng.choice([b"v", b"", b"a\r\n\r\nb", b"long value " * 3])))
+            elif k == 3:
+                ops.append(("C",))
+            else:
+                ops.append(("V",))
+        ops.append(("V",))
+        ops.append(("M",))
+        spec = ",".join(":".join([o[0]] + [hx(x) for x in o[1:]]) for o in ops)
+        cases.append(Case("c13-seq%d" % hi, ["txseq st=200 ops=" + spec], {"seq": ops, "impl_only": True, "tags": ["reused-response"]}))
     for bi in range(0, len(items), BATCH):
         lines = []
         metas = []
@@ -86,7 +106,32 @@ def generate(tier, rng):
     return cases
 
 
+def seq_oracle(case, out):
+    cur = b""
+    toks = out[0].split(" ") if out else []
+    ti = 0
+    for o in case.meta["seq"]:
+        if ti >= len(toks):
+            return "txseq: output too short: %r" % out
+        t = toks[ti]
+        ti += 1
+        if o[0] == "H":
+            cur = o[1]
+        elif o[0] == "A":
+            cur = cur + o[1] + b": " + o[2] + b"\r\n"
+        blanks, nlines, terminated = blank_lines(cur + b"\r\n")
+        good = (cur == b"" or cur.endswith(b"\n")) and blanks == [nlines - 1]
+        if o[0] in ("H", "V"):
+            said = t.split("=")[1] == "1"
+            if said and not good:
+                return ("a reused tx_response reports a header string with an empty line inside (or an unterminated one) as valid "
+                        "after the history %r: current header string %r" % ([x[0] for x in case.meta["seq"][:ti]], cur))
+    return None
+
+
 def oracle(case, out):
+    if case.meta.get("seq") is not None:
+        return seq_oracle(case, out)
     items = case.meta.get("items")
     if items is None:
         items = [None] * len(case.lines)
@@ -106,6 +151,8 @@ def oracle(case, out):
 
 
 def nontrivial(case, out):
+    if case.meta.get("seq") is not None:
+        return case.id if any(o[0] in ("H", "A") and any((b"\r" in x or b"\n" in x) for x in o[1:]) for o in case.meta["seq"]) else None
     items = case.meta.get("items") or []
     if any((b"\r" in p or b"\n" in p) for (_, p, _) in items):
         return case.id
